@@ -254,6 +254,128 @@ def derivable(g, start, s):
     return T[ids[id(top)]][0][n]
 
 
+def occurrences(g, start):
+    """terminal occurrences and range ends (by position in the AST) reachable from the start symbol,
+    not below a repetition whose upper bound is 0, and carrying a non-empty text"""
+    rules = dict(g)
+    seen, acc = set(), []
+
+    def walk(r):
+        if r[0] == 'T':
+            if r[1] != "":
+                acc.append((id(r), None, r[1]))
+        elif r[0] == 'R':
+            acc.append((id(r), 'lo', chr(r[1])))
+            acc.append((id(r), 'hi', chr(r[2])))
+        elif r[0] == 'N':
+            if r[1] not in seen and r[1] in rules:
+                seen.add(r[1])
+                walk(rules[r[1]])
+        elif r[0] in 'CA':
+            for x in r[1]:
+                walk(x)
+        elif not (r[3] == 0):
+            walk(r[1])
+    walk(('N', start))
+    return acc
+
+
+def derivable_using(g, start, s, occ):
+    """is there a derivation of s from the start symbol that uses the terminal occurrence occ = (node id, end)?
+    Two charts by least fixed point: D = derivable, U = derivable with a derivation using occ."""
+    rules = dict(g)
+    n = len(s)
+    terms = []
+
+    def collect(r):
+        terms.append(r)
+        if r[0] in 'CA':
+            for x in r[1]:
+                collect(x)
+        elif r[0] == 'P':
+            collect(r[1])
+    for _, r in g:
+        collect(r)
+    top = ('N', start)
+    terms.append(top)
+    ids = {id(t): k for k, t in enumerate(terms)}
+    D = [[[False] * (n + 1) for _ in range(n + 1)] for _ in terms]
+    U = [[[False] * (n + 1) for _ in range(n + 1)] for _ in terms]
+
+    def get(T, r, i, j):
+        return T[ids[id(r)]][i][j]
+
+    def seq_states(parts, i, j, counted):
+        """reachable (position, used-flag) after deriving parts in order from i; returns (can reach j, can reach j with used)"""
+        reach = {(i, False)}
+        for p in parts:
+            nxt = set()
+            for a, u in reach:
+                for b in range(a, j + 1):
+                    if get(D, p, a, b):
+                        nxt.add((b, u))
+                    if get(U, p, a, b):
+                        nxt.add((b, True))
+            reach = nxt
+            if not reach:
+                return False, False
+        return ((j, False) in reach or (j, True) in reach), (j, True) in reach
+
+    def rep_states(r, i, j):
+        e, lo, hi = r[1], r[2], r[3]
+        maxc = hi if hi is not None else lo + (j - i) + 1
+        seen = {(i, 0, False)}
+        frontier = [(i, 0, False)]
+        ok_d = ok_u = False
+        while frontier:
+            a, c, u = frontier.pop()
+            if a == j and c >= lo and (hi is None or c <= hi):
+                ok_d = True
+                ok_u = ok_u or u
+            if c >= maxc:
+                continue
+            for b in range(a, j + 1):
+                for flag, T in ((False, D), (True, U)):
+                    if get(T, e, a, b):
+                        st = (b, c + 1, u or flag)
+                        if st not in seen:
+                            seen.add(st)
+                            frontier.append(st)
+        return ok_d, ok_u
+    changed = True
+    while changed:
+        changed = False
+        for t in terms:
+            k = ids[id(t)]
+            for i in range(n + 1):
+                for j in range(i, n + 1):
+                    if D[k][i][j] and U[k][i][j]:
+                        continue
+                    if t[0] == 'T':
+                        d = s[i:j] == t[1]
+                        u = d and occ[0] == id(t)
+                    elif t[0] == 'R':
+                        d = j == i + 1 and t[1] <= ord(s[i]) <= t[2]
+                        u = d and occ[0] == id(t) and ord(s[i]) == (t[1] if occ[1] == 'lo' else t[2])
+                    elif t[0] == 'N':
+                        d = t[1] in rules and get(D, rules[t[1]], i, j)
+                        u = t[1] in rules and get(U, rules[t[1]], i, j)
+                    elif t[0] == 'C':
+                        d, u = seq_states(t[1], i, j, None)
+                    elif t[0] == 'A':
+                        d = any(get(D, x, i, j) for x in t[1])
+                        u = any(get(U, x, i, j) for x in t[1])
+                    else:
+                        d, u = rep_states(t, i, j)
+                    if d and not D[k][i][j]:
+                        D[k][i][j] = True
+                        changed = True
+                    if u and not U[k][i][j]:
+                        U[k][i][j] = True
+                        changed = True
+    return U[ids[id(top)]][0][n]
+
+
 def reachable_terminals(g, start):
     """terminal occurrences and range ends reachable from the start symbol (and not under a {0} repetition)"""
     rules = dict(g)
